@@ -1,10 +1,10 @@
 (* Extraction of the C14 emitter state machine (ExtrOcamlBasic only; numbers stay Coq's positive/Z datatypes). *)
 From Coq Require Extraction ExtrOcamlBasic.
-From Verif Require Import EmitState.EmitStateModel EmitState.EncPathModel.
+From Verif Require Import EmitState.EmitStateModel EmitState.EncPathModel EmitState.EmitFrameModel.
 From VerifGen Require Import C14MemPathModel.
 Extraction Blacklist List String Int.
 Extraction "emitstate.ml" EmitStateModel.step EmitStateModel.init_state EmitStateModel.model_constants
-  EmitStateModel.failed EmitStateModel.prune EmitStateModel.run EmitStateModel.persistent EmitStateModel.node_active_mark
+  EmitStateModel.failed EmitStateModel.prune EmitStateModel.run EmitStateModel.persistent EmitStateModel.node_active_mark EmitFrameModel.footprint_of
   EncPathModel.rel_cmd EncPathModel.path_constants EncPathModel.rel_result
   C14MemPathModel.mem_cmd C14MemPathModel.mem_path_constants C14MemPathModel.x86_add_mem C14MemPathModel.vsib_cmd C14MemPathModel.pushpop_cmd
   C14MemPathModel.a64_ldst_cmd C14MemPathModel.a64_path_constants C14MemPathModel.shift_cmd C14MemPathModel.vsib2_cmd C14MemPathModel.a64_ldp_cmd C14MemPathModel.mov_cmd C14MemPathModel.a64_simd_ldst_cmd C14MemPathModel.a64_simd_constants C14MemPathModel.vrrr_cmd.
